@@ -2,14 +2,14 @@
 # tools_recheck.sh <seed id> <check ids...> : apply /verif/seeded/<id>/patch.diff to /repo, run the quick checks, undo, update meta.json
 id=$1; shift; checks=$@
 /verif/tools_scratch.sh
-export VERIF_REPO=/tmp/seedrepo VERIF_EVIDENCE=/tmp/seed_evidence
-cd /tmp/seedrepo && git apply /verif/seeded/$id/patch.diff || exit 1
+export VERIF_REPO=${SEEDREPO:-/tmp/seedrepo} VERIF_EVIDENCE=${SEEDREPO:-/tmp/seedrepo}_evidence
+cd ${SEEDREPO:-/tmp/seedrepo} && git apply /verif/seeded/$id/patch.diff || exit 1
 res=""
 for c in $checks; do
   o=$(cd /verif && timeout 1500 ./check $c quick 2>/dev/null | grep -E "^VIOLATION|^OK |^INCONCLUSIVE|label=" | head -4 | tr '\n' ' ')
   res="$res [$c] $o"
 done
-git -C /tmp/seedrepo checkout -- .
+git -C ${SEEDREPO:-/tmp/seedrepo} checkout -- .
 echo "CHECKS: $res" | cut -c1-600
 python3 - "$id" "$res" <<'PY'
 import json,sys
